@@ -444,7 +444,7 @@ class Ref:
         if how == "dict":
             for rid, _ in items:
                 if rid not in self.rxns:
-                    return "unknown"
+                    return "unknown"  # incl. "det:<key>": a reaction that is not in the model
             self.obj = {rid: c for rid, c in items if c != 0}
             return "ok"
         if how == "index":
